@@ -578,6 +578,54 @@ def function_tables():
     info['escapes'] = len(esc)
     return info
 
+# The generated control code that Flex.lean / Parser.lean model by hand (flex 2.6.4 and bison 3.8 skeletons): the
+# matching loop, end-of-buffer handling, yy_get_next_buffer / yy_get_previous_state / yy_try_NUL_trans, the buffer
+# management functions; yyparse without its action switch, yydestruct.  Their normalised text (comments, #line and
+# white space removed) is compared with the text the models were written against (sha256).  Tables, rule actions and
+# YY_INPUT are translated separately.
+SKELETON_CATALOGUE = {
+    'yylex_match_loop': '629c82a0fe88e308', 'yylex_end_of_buffer': '2e4da13797853a79', 'refill_and_state': '7f2f7ab81b6a4dfc',
+    'buffers': 'f6637a1e869a7ef2', 'yyparse_skeleton': '46ded39f709ba369', 'yydestruct': '2db861c1565c1e95'}
+
+def skeletons():
+    import hashlib
+    got = {}
+    try:
+        src = open(os.path.join(REPO, 'lib', 'scanner.c')).read()
+        i = src.index('\nYY_DECL\n'); j = src.index('switch ( yy_act )', i)
+        got['yylex_match_loop'] = src[i:j]
+        k = src.index('case YY_END_OF_BUFFER:', j); e = src.index('/* end of yylex */', k)
+        got['yylex_end_of_buffer'] = src[k:e]
+        i = src.index('static int yy_get_next_buffer (yyscan_t yyscanner)'); j = src.index('#ifndef YY_NO_UNPUT', i)
+        got['refill_and_state'] = src[i:j]
+        i = src.index('    void yyrestart  (FILE * input_file , yyscan_t yyscanner)'); j = src.index('/** Get the user-defined data', i)
+        got['buffers'] = src[i:j]
+    except (ValueError, OSError):
+        pass
+    try:
+        g = open(os.path.join(REPO, 'lib', 'grammar.c')).read()
+        i = g.index('\nyyparse ('); a = g.index('switch (yyn)', i); b = g.index('default: break;', a)
+        got['yyparse_skeleton'] = g[i:a] + g[b:]
+        i = g.index('yydestruct (const char *yymsg'); j = g.index('\nyyparse (')
+        got['yydestruct'] = g[i:j]
+    except (ValueError, OSError):
+        pass
+    diff = [k for k, h in SKELETON_CATALOGUE.items()
+            if k not in got or hashlib.sha256(normalise(got[k]).encode()).hexdigest()[:16] != h]
+    sc_ok = not [k for k in diff if k in ('yylex_match_loop', 'yylex_end_of_buffer', 'refill_and_state', 'buffers')]
+    pa_ok = not [k for k in diff if k in ('yyparse_skeleton', 'yydestruct')]
+    L = ['/- GENERATED by tools/translate.py — do not edit.',
+         '   Whether the generated control code of lib/scanner.c (flex skeleton: matching loop, end-of-buffer handling,',
+         '   yy_get_next_buffer, yy_get_previous_state, yy_try_NUL_trans, buffer management) and of lib/grammar.c (bison',
+         '   skeleton: yyparse without its action switch, yydestruct) still has the text that Flex.lean / Parser.lean /',
+         '   Scanner.lean model by hand. -/',
+         'namespace Libconfig.Generated', '',
+         'def scannerSkeletonKnown : Bool := %s' % ('true' if sc_ok else 'false'),
+         'def parserSkeletonKnown : Bool := %s' % ('true' if pa_ok else 'false'),
+         '', 'end Libconfig.Generated', '']
+    write_if_changed(os.path.join(OUT, 'Skeleton.lean'), '\n'.join(L))
+    return {'changed_parts': diff}
+
 def file_define(path, name):
     try:
         return c_define(open(os.path.join(REPO, 'lib', path)).read(), name)
@@ -654,7 +702,7 @@ def main():
     sinfo = scanner_tables(toks)
     cinfo = constants()
     finfo = function_tables()
-    info = {'scanner': sinfo, 'parser': pinfo, 'constants': cinfo, 'function_tables': finfo}
+    info = {'scanner': sinfo, 'parser': pinfo, 'constants': cinfo, 'function_tables': finfo, 'skeletons': skeletons()}
     try:
         import inventory
         info['inventory'] = inventory.generate(REPO, OUT, write_if_changed)
